@@ -434,7 +434,10 @@ func ladder(r *engine.Rec) {
 func reuse(r *engine.Rec) {
 	first := []string{"[1 1](List)", "[", "]", "[1, 2](Catalog)", "[\n    1\n    2 3\n](List)\n", "[1](List) x", "[1, 2, 3, 4, 5, 6, 7, 8, 9, 10, 11, 12, 13, 14, 15, 16, 17, 18 19](List)",
 		"[\"a\": ](Catalog)", "[1](Lisp)", "x", "[(1.0+2.0i)", "[1](List)", "[ ](Set)\n\n"}
-	second := []string{"[1](List)", "[\n    \"a\": 1\n    \"b\": 2\n](Catalog)\n", "[2, 3](Set)", "[", "[1 1](List)", "[ ](Queue)"}
+	second := []string{"[1](List)", "[\n    \"a\": 1\n    \"b\": 2\n](Catalog)\n", "[2, 3](Set)", "[", "[1 1](List)", "[ ](Queue)",
+		// rejected early with more tokens still to come than the token queue holds (the scanner must be released), and accepted after as many
+		"[1 1, 2, 3, 4, 5, 6, 7, 8, 9, 10, 11, 12, 13, 14, 15, 16, 17, 18, 19, 20](List)", "x [1, 2, 3, 4, 5, 6, 7, 8, 9, 10, 11, 12, 13, 14, 15, 16, 17, 18, 19, 20](List)",
+		"[1, 2, 3, 4, 5, 6, 7, 8, 9, 10, 11, 12, 13, 14, 15, 16, 17, 18, 19, 20](List)"}
 	type rc struct {
 		First  string `json:"first"`
 		Second string `json:"then"`
